@@ -866,6 +866,46 @@ pub fn apply(m: &mut Module, st: &mut EditState, e: &Edit) -> (bool, String) {
             ir::dfs_pre_order_mut(&mut Pass { what: *what % 2 }, lf, entry);
             (true, String::new())
         }
+        Edit::AddImportLate { kind, export, flavour } => {
+            // a name no export of the module carries yet (the edit state restarts on a re-parse)
+            let name = loop {
+                st.counter += 1;
+                let n = format!("late{}", st.counter);
+                let x = format!("x{}", n);
+                if !m.exports.iter().any(|e| e.name == x) {
+                    break n;
+                }
+            };
+            match kind % 4 {
+                0 => {
+                    let ty = m.types.add(&[ValType::I32], &[]);
+                    let (f, _) = m.add_import_func("late", &name, ty);
+                    if *export {
+                        m.exports.add(&format!("x{}", name), f);
+                    }
+                }
+                1 => {
+                    let (g, _) = m.add_import_global("late", &name, if flavour % 2 == 0 { ValType::I32 } else { ValType::F64 }, false, false);
+                    if *export {
+                        m.exports.add(&format!("x{}", name), g);
+                    }
+                }
+                2 => {
+                    // (several memories need the multi-memory proposal, which walrus's default feature set has)
+                    let (mem, _) = m.add_import_memory("late", &name, false, false, 1, None, None);
+                    if *export {
+                        m.exports.add(&format!("x{}", name), mem);
+                    }
+                }
+                _ => {
+                    let (t, _) = m.add_import_table("late", &name, false, 1, None, if flavour % 2 == 0 { RefType::Funcref } else { RefType::Externref });
+                    if *export {
+                        m.exports.add(&format!("x{}", name), t);
+                    }
+                }
+            }
+            (true, String::new())
+        }
         Edit::RenameFunc { pick, name } => {
             let n = m.funcs.iter().count();
             let Some(id) = nth(m.funcs.iter().map(|f| f.id()), *pick, n) else { return (false, "no function".into()) };
